@@ -110,12 +110,19 @@ def run_module_check(pid, level, rule, worker, replay_case, argv, n_modules, n_v
     cfg_kw = dict(cfg_kw or {})
     _, _, bt = build.warm(variants)
     chk.extra_coverage["build_s"] = round(bt, 1)
+    t1 = time.time()
     regression_and_probes(chk, replay_case)
+    chk.extra_coverage["replays_and_probes_s"] = round(time.time() - t1, 1)
+    t1 = time.time()
     cfg = gen.Cfg(**cfg_kw)
     mods = pipeline.draw_modules(chk.seed, nm, cfg, module_strategy(cfg) if module_strategy else None)
     mods = list(extra_modules) + mods
     args = [(m.to_json(), chk.seed * 7919 + i, nv, cfg_kw) + tuple(extra_worker_args) for i, m in enumerate(mods)]
+    chk.extra_coverage["draw_modules_s"] = round(time.time() - t1, 1)
+    t1 = time.time()
     results = run_pool(worker, args, a.workers)
+    chk.extra_coverage["pool_s"] = round(time.time() - t1, 1)
+    t1 = time.time()
     for kind, r in results:
         if kind == "ok":
             chk.acc.merge(r)
@@ -123,4 +130,5 @@ def run_module_check(pid, level, rule, worker, replay_case, argv, n_modules, n_v
             chk.error("worker failed: " + r[-3000:])
     chk.extra_coverage["modules_drawn"] = len(mods)
     confirm(chk, replay_case)
+    chk.extra_coverage["confirm_s"] = round(time.time() - t1, 1)
     return chk.finish(min_evaluations or chk.pick(nm * 20, nm * 20), min_nontrivial or 50)
